@@ -155,10 +155,11 @@ def judge_graph(ctx, case, graph, x, lean_line, origin="real"):
                         f"for object {oid} but has parents {[x['nodes'][p]['id'] for p in ps]} for it "
                         f"(expected exactly one producer of worker {nd['worker']})")
             ctx.violate(key, what, full)
+    vkey = "double-clone" if double_clone(x) else "validate-rejects"
     for (nid, err) in x["invalid"]:
-        ctx.violate("validate-rejects", f"TestNode.validate() rejects {nid}: {err}", full)
+        ctx.violate(vkey, f"TestNode.validate() rejects {nid}: {err}", full)
     for (nid, err) in getattr(graph, "_verif_invalid", []) if graph is not None else []:
-        ctx.violate("validate-rejects", f"TestNode.validate() rejects {nid} during lazy expansion: {err}", full)
+        ctx.violate(vkey, f"TestNode.validate() rejects {nid} during lazy expansion: {err}", full)
     return spec, lean
 
 
@@ -253,6 +254,16 @@ def run_cases(ctx, cases, n_mut=2):
                         "TestNode.validate() rejects a node while parsing: " + status[:300], dict(case))
             ctx.case(brief(case), nontrivial=True)
             continue
+        if status.startswith("error:Timeout"):
+            # the implementation's own non-termination (bounded by graphlib.run_case): reported only when it can be
+            # tied to a finding (double-clone shape, or it terminates under a finding's minimal fix)
+            dbl = case.get("suite") and not case["suite"].get("path") and any(
+                sum(1 for o in t["objs"].values() if o["get"] and not o["get_state"]) >= 2
+                for t in case["suite"]["tests"])
+            ctx.violate("double-clone" if dbl else "parser-timeout",
+                        "the parser did not terminate within the time bound on this input", dict(case))
+            ctx.case(brief(case), nontrivial=True)
+            continue
         if status.startswith("error"):
             ctx.notes.append(f"real parser raised on {brief(case)}: {status}"[:600])
             ctx.case(brief(case), nontrivial=False)
@@ -337,10 +348,9 @@ def correspondence(ctx):
                 "real run/clean/rerun decisions; each real graph additionally yields malformed variants (negative "
                 "stream) on which checker and oracle must agree; non-trivial = more than 3 nodes; distinct by content")
     try:
-        corpus = os.path.join(vlib.VERIF, "corpus", "C06")
-        if os.path.isdir(corpus):
-            for f in sorted(os.listdir(corpus)):
-                replay(ctx, {"case": json.load(open(os.path.join(corpus, f)))})
+        for case in gl.corpus_cases("C06"):
+            ctx.count("corpus.replayed")
+            gl.run_attributed(ctx, case, lambda c, k: run_cases(c, [k], n_mut=0))
         n_suites, per_suite, n_shipped = (150, 3, len(SHIPPED_CASES)) if thorough else (16, 2, 2)
         budget = 1500 if thorough else 150
         cases = gen_cases(rng, n_suites, per_suite, "large" if thorough else "small")
